@@ -186,6 +186,15 @@ func (cr *CrashRec) onEvent(ev *FSEvent) (bool, int, error) {
 	var ferr error
 	if cr.Inj != nil {
 		failed, nWritten, ferr = cr.Inj.onEvent(ev)
+		if failed && cr.Power {
+			// a sync that fails has not made anything durable
+			if ev.Op == "sync" {
+				cr.prevValid = false
+			}
+			if ev.Op == "syncdir" {
+				cr.prevDirSync = false
+			}
+		}
 	}
 	if cr.Power && ev.Op == "write" && (!failed || nWritten > 0) {
 		e := *ev
